@@ -90,6 +90,11 @@ func (sw *SprayAndWait) NotifyNewBundle(bp BundleDescriptor) {
 			remainingCopies: sw.l,
 		}
 
+		// a bundle of ours that comes back from a neighbour (after it left our store) names the node it came from
+		if pnBlock, err := bp.MustBundle().ExtensionBlock(bpv7.ExtBlockTypePreviousNodeBlock); err == nil {
+			metadata.sent = append(metadata.sent, pnBlock.Value.(*bpv7.PreviousNodeBlock).Endpoint())
+		}
+
 		sw.dataMutex.Lock()
 		sw.bundleData[bp.Id] = metadata
 		sw.dataMutex.Unlock()
